@@ -29,7 +29,7 @@ def dt_of(us):
 class MServer(object):
     """Harness model of one storage server."""
 
-    def __init__(self, rng, i, managers_cfg, manager_other, others_hint, horizon):
+    def __init__(self, rng, i, horizon):
         self.key = Key(rng, "S%d" % i)
         self.sid = self.key.v0                       # b"v0-<52 chars>"
         self.tubid = b32(bytes(rng.getrandbits(8) for _ in range(20)))
@@ -105,7 +105,7 @@ def run(ck):
     from twisted.application import service
     from twisted.internet import defer
     from allmydata import grid_manager as gm
-    from allmydata.storage_client import StorageFarmBroker, StorageClientConfig, NativeStorageServer
+    from allmydata.storage_client import StorageFarmBroker, StorageClientConfig
     from allmydata.node import config_from_string
     from allmydata.client import _valid_config, SecretHolder
     from allmydata.immutable.upload import Tahoe2ServerSelector, UploadStatus
@@ -394,7 +394,7 @@ def run(ck):
         if len(homed) != p.total_shares:
             ck.observe("mutable-goal-incomplete")
 
-    ncases = 220 if ck.tier == "quick" else 1500
+    ncases = 400 if ck.tier == "quick" else 1500
     chatter = io.StringIO()     # grid_manager's default bad_cert callback print()s every failed signature
     redirect = contextlib.redirect_stdout(chatter)
     redirect.__enter__()
@@ -407,7 +407,7 @@ def run(ck):
             configured = [Key(rng, "M%d" % j) for j in range(ncfg)]
             foreign = Key(rng, "Mx")
             horizon = rng.choice([1000, 3600 * 10 ** 6, 10 ** 13])
-            servers = [MServer(rng, i, configured, foreign, None, horizon) for i in range(n)]
+            servers = [MServer(rng, i, horizon) for i in range(n)]
             if n >= 2 and rng.random() < .12:
                 servers[1].seed_ann = servers[0].seed()          # two servers announcing the same seed (tie)
             # certificates
@@ -532,3 +532,22 @@ def run(ck):
                      "config-via-tahoe-cfg", "upload-filter-excluded-a-server", "upload-filter-kept-a-server",
                      "immutable-asks-for_upload", "allocate_buckets-observed", "mutable-new-placement")
     ck.exhaustive = False
+
+
+# MUST_CATCH -- planted in a scratch copy (VF_REPO=/var/tmp/auth_st/... ./check C32), removed afterwards.
+# The unchanged tree already reports `preferred-peers-from-config-ignored` (genuine, see report); a break counts as
+# caught only when it adds another key.
+#   util/hashutil.py   permute_server_hash without the storage index ........ caught: server-order-mismatch
+#   storage_client.py  `if for_upload:` -> `if False:` ........................ caught: for_upload-not-exactly-permitted-subsequence,
+#                                                                                      immutable-upload-allocates-on-unpermitted-server
+#   storage_client.py  `if for_upload:` -> `if True:` (filters reads too) ..... caught: server-set-mismatch
+#   storage_client.py  is_unpreferred = False (preferred ignored) ............. caught: server-order-mismatch
+#   storage_client.py  sorted(..., reverse=True) .............................. caught: server-order-mismatch
+#   storage_client.py  no sort (frozenset order) .............................. caught: brokers-disagree, server-order-mismatch
+#   storage_client.py  announced permutation-seed-base32 ignored .............. caught: permutation-seed-mismatch, server-order-mismatch
+#   storage_client.py  get_connected_servers returns all known servers ........ caught: server-set-mismatch, brokers-disagree
+#   storage_client.py  verifier bound to an upper-cased server identity ....... caught: excludes-server-with-valid-certificate,
+#                                                                                      mutable-goal-refuses-although-permitted-server-exists
+#   mutable/publish.py update_goal: `if not server.upload_permitted():` -> `if False:`  caught: mutable-goal-adds-unpermitted-server
+#   immutable/upload.py get_servers_for_psi(storage_index) without for_upload=True ..... caught: immutable-upload-allocates-on-unpermitted-server
+# Proposed fix (from_node_config: p.strip().encode("utf-8")) applied to a scratch copy: exit 0.
